@@ -21,6 +21,7 @@ import signal
 import xml.dom
 
 import cssutils
+import xml.dom as xml_dom
 import cssutils.css
 
 from mc import guard
@@ -1010,7 +1011,91 @@ def plan(tier):
         shards.append(['pair', n])
     shards.append(['resolution', None])
     shards.append(['ffconj', None])
+    for n in names:
+        shards.append(['active', n])
     return shards
+
+
+# ----------------------------------------------------------------------------------------
+# C13.active: the verdict depends on the *currently* active profiles only - not on verdicts asked under other settings before
+
+
+def _settings():
+    names = list(cssutils.profile.profiles)
+    css3 = [n for n in names if n != cssutils.profile.CSS_LEVEL_2]
+    return [None, [cssutils.profile.CSS_LEVEL_2], css3[:2], css3]
+
+
+def _verdict(name, value):
+    try:
+        p = cssutils.css.Property(name, value)
+        v = (p.wellformed, p.valid)
+    except xml_dom.DOMException as e:
+        v = ('rejected', type(e).__name__)
+    try:
+        w = tuple(cssutils.profile.validateWithProfile(name, value))
+        w = (w[0], w[1], tuple(w[2]) if isinstance(w[2], (list, tuple)) else w[2])
+    except Exception as e:
+        w = ('exc', type(e).__name__)
+    return (v, w)
+
+
+_REF_REG = {}
+
+
+def active_case(res, name, value, order, record=True):
+    """order: indexes into _settings(); the verdict under each setting must equal the verdict of a fresh registry under that setting"""
+    from cssutils.profiles import Profiles
+
+    keep = cssutils.profile
+    case = {'kind': 'active', 'name': name, 'value': value, 'order': list(order)}
+    try:
+        settings = _settings()
+        # reference: a registry that has never been under any other setting (one per setting and worker process)
+        refs = {}
+        for i in set(order):
+            if i not in _REF_REG:
+                _REF_REG[i] = Profiles(log=cssutils.log)
+                _REF_REG[i].defaultProfiles = settings[i]
+            cssutils.profile = _REF_REG[i]
+            refs[i] = _verdict(name, value)
+        # the history: one registry, settings switched in the given order
+        cssutils.profile = Profiles(log=cssutils.log)
+        got = []
+        for i in order:
+            cssutils.profile.defaultProfiles = settings[i]
+            got.append(_verdict(name, value))
+    finally:
+        cssutils.profile = keep
+    res.evaluations += 1
+    res.clauses['C13.active'] += 1
+    res.outcomes.add(h64(repr(got)))
+    if len({repr(refs[i]) for i in set(order)}) > 1:
+        res.nontrivial += 1
+        res.counters['active.verdict-depends-on-setting'] += 1
+    for step, i in enumerate(order):
+        if got[step] != refs[i]:
+            res.violation('C13.active', f'verdict-depends-on-earlier-setting|step={step}', case,
+                          {'setting': settings[i], 'fresh-registry': refs[i]}, {'after-history': got[step]}, size=len(order) * 100 + len(value))
+            return False
+    return True
+
+
+def active_shard(res, name, tier):
+    m = menu(tier)
+    seen = set()
+    n = len(_settings())
+    orders = [(a, b, a) for a in range(n) for b in range(n) if a != b]
+    if tier == 'quick':
+        orders = [(0, 1, 0), (1, 0, 1), (1, 3, 1), (3, 1, 3)]
+    for entry in m:
+        cls = entry.get('cls')
+        if tier == 'quick' and cls in seen:
+            continue
+        seen.add(cls)
+        for order in orders:
+            active_case(res, name, entry['text'], order)
+    res.sample({'kind': 'active', 'name': name, 'value': m[0]['text'], 'order': [0, 1, 0]})
 
 
 def _ffconj(res):
@@ -1059,6 +1144,8 @@ def run_shard(shard, tier, seed):
             res.sample(resolution_cases()[seed % 7])
         elif kind == 'ffconj':
             _ffconj(res)
+        elif kind == 'active':
+            active_shard(res, arg, tier)
     finally:
         signal.setitimer(signal.ITIMER_REAL, 0)
         signal.signal(signal.SIGALRM, old)
@@ -1099,6 +1186,8 @@ def replay(case, tier, seed):
             conjunction_case(res, case)
         elif k == 'resolution':
             resolution_case(res, case)
+        elif k == 'active':
+            active_case(res, case['name'], case['value'], tuple(case['order']))
     finally:
         signal.setitimer(signal.ITIMER_REAL, 0)
         signal.signal(signal.SIGALRM, old)
